@@ -269,6 +269,10 @@ impl Zone {
         }
         let (sd, st) = split(self.local_of(t1));
         let (ed, et) = split(self.local_of(t2));
+        // both instants read the same local date: the difference is the elapsed time (no day can be borrowed)
+        if sd == ed {
+            return Ok((DateDur::default(), t2 - t1));
+        }
         let sign: i128 = if t2 - t1 < 0 { -1 } else { 1 };
         let max_corr = if sign == 1 { 2 } else { 1 };
         let mut corr: i128 = if (et - st).signum() == -sign { 1 } else { 0 };
